@@ -203,23 +203,13 @@ Proof.
   inversion F; assumption.
 Qed.
 
-(* reb_collision_resolve_merge enlarges a radius (cbrt(ri^3+rj^3)) WITHOUT updating max_radius0/1:
-   the invariant does not survive merges *)
-Lemma radii_merge_breaks : exists st l, radii_ok st l /\ forall c, c * c * c = 2 -> ~ radii_ok st [c; c].
+(* reb_collision_resolve_merge (since the fix) applies the same rule to the merged radius c right after computing it.
+   The two progenitor radii ri, rj leave the array (rj at once, or, with a tree, stays on its flagged slot until the
+   next tree update), c enters: the bounds stay valid for ANY value of c.  They are upper bounds, not the exact
+   largest/second largest radius: removals and merges never lower them. *)
+Lemma radii_merge st l ri rj rest c : radii_ok st l -> Permutation l (ri :: rj :: rest) ->
+  radii_ok (add_radius st c) (c :: rest) /\ radii_ok (add_radius st c) (c :: rj :: rest).
 Proof.
-  exists (1, 1), [1; 1; 1; 1]. split.
-  - cbn. split; [lra|]. split; [repeat constructor; lra|].
-    intros x l' Hp Hx. exfalso.
-    assert (Hin : In x [1; 1; 1; 1]) by (eapply Permutation_in; [apply Permutation_sym; exact Hp|left; reflexivity]).
-    cbn in Hin. lra.
-  - intros c Hc (_ & HF & _). inversion HF as [|? ? H1 _]; subst.
-    assert (Hc1 : 1 < c).
-    { clear - Hc. destruct (Rlt_dec 1 c) as [L|L]; [exact L|]. exfalso.
-      assert (Q : 0 <= c * c) by apply (Rle_0_sqr c).
-      assert (Q2 : 0 <= c * c * (1 - c)) by (apply Rmult_le_pos; lra).
-      assert (Q3 : 2 <= c * c) by lra.
-      destruct (Rle_dec (-1) c) as [M|M].
-      - assert (0 <= (1 - c) * (1 + c)) by (apply Rmult_le_pos; lra). lra.
-      - assert (0 <= c * c * (- c)) by (apply Rmult_le_pos; lra). lra. }
-    lra.
+  intros H Hp. pose proof (radii_remove _ _ _ _ H Hp) as H1.
+  split; apply radii_add; [|exact H1]. eapply radii_remove; [exact H1|apply Permutation_refl].
 Qed.
